@@ -3,6 +3,7 @@
 #include <csignal>
 #include <sys/resource.h>
 #include <sys/wait.h>
+#include <fcntl.h>
 #include <unistd.h>
 
 namespace vh {
@@ -51,6 +52,73 @@ int forkRun(const std::function<int()>& fn, int seconds, std::string& why, size_
 	else if (rc == 97) why = "Exception";
 	else why = "Exit" + std::to_string(rc);
 	return 1;
+}
+
+size_t runForkedCases(size_t n, const std::string& outPath, int secondsPerCase, const std::function<void(size_t, std::string&)>& fn,
+					  const std::function<void(size_t, const std::string&, FILE*)>& onCrash, size_t memLimitMB) {
+	size_t start = 0, crashes = 0;
+	std::string markPath = outPath + ".mark";
+	while (start < n) {
+		fflush(stdout);
+		fflush(stderr);
+		pid_t pid = fork();
+		if (pid < 0) return crashes + 1;
+		if (pid == 0) {
+			if (memLimitMB) {
+				struct rlimit rl;
+				rl.rlim_cur = rl.rlim_max = memLimitMB * 1024ull * 1024ull;
+				setrlimit(RLIMIT_AS, &rl);
+			}
+			struct rlimit core = {0, 0};
+			setrlimit(RLIMIT_CORE, &core);
+			FILE* out = fopen(outPath.c_str(), "a");
+			int mfd = open(markPath.c_str(), O_WRONLY | O_CREAT | O_TRUNC, 0644);
+			int rc = 0;
+			try {
+				for (size_t i = start; i < n; i++) {
+					uint64_t v = i;
+					if (pwrite(mfd, &v, sizeof v, 0) != (ssize_t) sizeof v) { rc = 96; break; }
+					alarm(secondsPerCase);
+					std::string buf;
+					fn(i, buf);          // a case's output reaches the file only when the case completed
+					fwrite(buf.data(), 1, buf.size(), out);
+					fflush(out);
+				}
+			}
+			catch (const std::bad_alloc&) {
+				rc = 98;
+			}
+			catch (const std::exception& e) {
+				fprintf(stderr, "exception: %s\n", e.what());
+				rc = 97;
+			}
+			alarm(0);
+			fclose(out);
+			close(mfd);
+			_exit(rc);
+		}
+		int st = 0;
+		waitpid(pid, &st, 0);
+		if (WIFEXITED(st) && WEXITSTATUS(st) == 0) break;
+		std::string why;
+		if (WIFSIGNALED(st)) why = WTERMSIG(st) == SIGALRM ? "Timeout" : ("Signal" + std::to_string(WTERMSIG(st)));
+		else why = WEXITSTATUS(st) == 98 ? "OOM" : (WEXITSTATUS(st) == 97 ? "Exception" : "Exit" + std::to_string(WEXITSTATUS(st)));
+		uint64_t at = start;
+		{
+			int mfd = open(markPath.c_str(), O_RDONLY);
+			if (mfd >= 0) {
+				if (read(mfd, &at, sizeof at) != (ssize_t) sizeof at) at = start;
+				close(mfd);
+			}
+		}
+		crashes++;
+		FILE* out = fopen(outPath.c_str(), "a");
+		onCrash((size_t) at, why, out);
+		fclose(out);
+		start = (size_t) at + 1;
+	}
+	unlink(markPath.c_str());
+	return crashes;
 }
 } // namespace vh
 
